@@ -4,7 +4,9 @@ from props.common import mk, bounds
 
 ASSUMPTIONS = ["m ranges over EVERY member of L(p) of length <= L (membership assumed through regexp on ^(?:p)$), not over generated samples; patterns: corpus P1 plus literal-heavy extras"]
 
-EXTRA = [r"a(b*c)d", r"(x*y)c", r"a(\d+b)c", r"(a?b)c", r"a([bc]+d)e", r"(ab[cd])e", r"abc", r"ab|cd", r"a(b|c)d", r"(foo|foobar)x", r"x*yx*", r"a+b", r"[ab]c", r"[a-c]x|yz", r"(?i)ab", r"ab.*cd", r"a?bc", r"(a|b)(c|d)e", r"\d+ab", r"ab\d+", r"a{2,3}b", r"(ab)+c", r"ab|", r"(?:a|b|c|d|e|f|g|h|i|j|k)x"]
+EXTRA = [r"a(b*c)d", r"(x*y)c", r"a(\d+b)c", r"(a?b)c", r"a([bc]+d)e", r"(ab[cd])e", r"abc", r"ab|cd", r"a(b|c)d", r"(foo|foobar)x", r"x*yx*", r"a+b", r"[ab]c", r"[a-c]x|yz", r"(?i)ab", r"ab.*cd", r"a?bc", r"(a|b)(c|d)e", r"\d+ab", r"ab\d+", r"a{2,3}b", r"(ab)+c", r"ab|", r"(?:a|b|c|d|e|f|g|h|i|j|k)x",
+         # case folding with non-ASCII members of ASCII orbits (k/K/KELVIN SIGN, s/S/LONG S) and non-ASCII letters
+         r"(?i)k", r"(?i)s", r"(?i)sk", r"x(?i:s)", r"(?i)é"]
 LIMITS = ["", "maxlits=2", "maxlen=1", "maxclass=1", "cross=2", "maxlits=1,maxlen=2"]
 
 
